@@ -811,6 +811,31 @@ def _alignment(prog, rep):
                    ((prob_ + "; the LP is solved without that bound") if okp else f"the {nm} entry of a bounds pair is `{src(v)[:40]}`, not {var}.{attr}"),
                    loc=f"{eb.module.rel}:{getattr(v, 'lineno', node.lineno)}", detail=f"bound-value:{nm}")
     ex = L.methods.get("extract")
-    se = src(ex.node)
-    ok = all(f"{k}={k}" in se for k in ("c", "sense", "A_ub", "b_ub", "A_eq", "b_eq", "bounds"))
-    rep.pin('LP alignment', "R05.5", "extract", ok, "LPData fields are filled from the values of the same name" if ok else "LPData fields are not filled one-to-one from the extracted values", loc=ex.loc, detail="fields")
+    # every LPData field is filled with the value extracted for it: c/sense from extract_objective, the four blocks from
+    # extract_constraints in its return order, bounds from extract_bounds (keywords or positional arguments)
+    from .common import constructor_fields
+    lp_calls = [c for c in calls(ex.node) if dotted(c.func) == "LPData"]
+    if not lp_calls:
+        rep.undecided("extract: LPData(...) construction not found")
+    else:
+        fields = constructor_fields(prog, "LPData", lp_calls[0])
+        ea = local_assignments(ex.node)
+        origin = {}     # local name -> (producer, position in the returned tuple)
+        for n in walk_local(ex.node):
+            if isinstance(n, ast.Assign) and isinstance(n.value, ast.Call):
+                f = src(n.value.func).split(".")[-1]
+                tg = n.targets[0]
+                if isinstance(tg, ast.Tuple):
+                    for i, e in enumerate(tg.elts):
+                        if isinstance(e, ast.Name):
+                            origin[e.id] = (f, i)
+                elif isinstance(tg, ast.Name):
+                    origin[tg.id] = (f, None)
+        want = {"c": ("extract_objective", 0), "sense": ("extract_objective", 1), "A_ub": ("extract_constraints", 0), "b_ub": ("extract_constraints", 1), "A_eq": ("extract_constraints", 2), "b_eq": ("extract_constraints", 3), "bounds": ("extract_bounds", None)}
+        bad = []
+        for fld, w in want.items():
+            v = fields.get(fld)
+            got = origin.get(v.id) if isinstance(v, ast.Name) else None
+            if got != w:
+                bad.append(f"{fld} <- {src(v)[:30] if v is not None else 'missing'} ({got})")
+        rep.ob("R05.5", "extract", not bad, "LPData fields are filled from the values extracted for them (c, sense | A_ub, b_ub, A_eq, b_eq | bounds)" if not bad else f"LPData fields are not filled one-to-one from the extracted values: {bad[0]}", loc=f"{ex.module.rel}:{lp_calls[0].lineno}", detail="fields")
